@@ -85,8 +85,14 @@ def run(cx):
                 inst.site(a, loc, "Ack{nonce_ack: %s}" % v)
                 if v != "arg2.nonce":
                     inst.violation(a.path, "ACK nonce", "the client's ACK echoes `%s`, not the server's nonce" % v, at=a.span_at(loc))
-        if n < 2:
-            inst.violation(a.path, "ACK frames", "expected the ACK to be built in the Pending and Active arms (anchor)")
+        # the ACK is (re)sent whenever a SYN-ACK with the right nonce arrives while Pending or Active: every path that
+        # sends nothing takes an edge on which the state is neither, or on which the nonce differs
+        sends = call_locs(a, "UdpSocket::send") + call_locs(a, "UdpSocket::send_to")
+        fe = cx.fa(a)
+        quiet = [k for k, lits in fe.edge_lits.items() if any(re.fullmatch(r"is\(arg1\.state,(Closing|Closed|Fin)\)|!is\(arg1\.state,(Pending|Active)\)|ne\(.*nonce_ack.*\)", x) for x in lits)]
+        w = a.reach_exit_avoiding_edges(sends, quiet) if (n >= 1 and sends) else [0]
+        if w is not None:
+            inst.violation(a.path, "ACK frames", "a SYN-ACK carrying the client's nonce can go unanswered while Pending or Active", detail={"offending_path": a.path_spans(w)[:16]})
     with cx.instance("C07.c", "T1 GUARD", "client: Active/Connect require Pending and nonce match; re-ACK requires the same match; handshake errors require Pending and nonce match", floor=3) as inst:
         a = R.body(CSA)
         sinks = agg_sites(a, r"State::Active") + event_pushes(a, r"Event::Connect")
